@@ -634,6 +634,32 @@ func (r *Run) lookup(fr *frame, instr *ssa.Lookup, x, idx value) value {
 		}
 		return b[i]
 	}
+	if ss, ok := idx.(*symStr); ok {
+		if m, ok := x.(map[value]value); ok {
+			// a map from strings looked up with symbolic text: one branch per key of the same length
+			var keys []string
+			for k := range m {
+				if ks, ok := k.(string); ok && len(ks) == len(ss.b) {
+					keys = append(keys, ks)
+				}
+			}
+			sort.Strings(keys)
+			for _, k := range keys {
+				c := strEq(r.pool, ss, k)
+				if c.IsTrue() || (!c.IsFalse() && r.branch(c, fr.pos(instr))) {
+					return lookup(instr, x, k)
+				}
+			}
+			missing := "\x00"
+			for {
+				if _, present := m[missing]; !present {
+					break
+				}
+				missing += "\x00"
+			}
+			return lookup(instr, x, missing)
+		}
+	}
 	idx = r.concretizeKey(fr, instr, idx)
 	return lookup(instr, x, idx)
 }
